@@ -16,6 +16,15 @@
 
 namespace vpay {
 
+struct OpLog;
+// makes OpLog "initializer_list-constructible from itself" (like std::vector<std::any>, JSON document types …): for such a
+// T, `T b{a}` is NOT a copy — it builds a one-element container.  A wrapper that brace-initialises a copy of the wrapped
+// object changes its value for these types only.
+struct OpLogItem {
+    const OpLog* src;
+    OpLogItem(const OpLog& o): src(&o) {}  // NOLINT (implicit on purpose)
+};
+
 struct OpLog {
     static constexpr int CAP = 24;
     int n = 0;
@@ -23,6 +32,8 @@ struct OpLog {
     int n2 = 0;
 
     OpLog() = default;
+    // list construction: the elements' contents followed by the marker 999 — visibly not a copy
+    OpLog(std::initializer_list<OpLogItem> l);  // NOLINT
     bool traced() const { return verif::tracing() && verif::is_registered(this); }
     std::string nm() const { return verif::is_registered(this) ? verif::name_of(this) : std::string("?"); }
 
@@ -151,5 +162,16 @@ struct OpLog {
         return *this;
     }
 };
+
+inline OpLog::OpLog(std::initializer_list<OpLogItem> l)
+{
+    for (const auto& it : l) {
+        for (int i = 0; i < it.src->n && n < CAP - 1; ++i) {
+            v[n++] = it.src->v[i];
+        }
+    }
+    v[n++] = 999;
+    n2 = n;
+}
 
 }  // namespace vpay
